@@ -12,7 +12,18 @@ abstracts from, see below.
 A schedule is a list of `Op`s.  Everything the environment can do to the scheduler is an `Op`:
 a peer queues a file, the management job runs (`cycle`), an initialising upload gets through / fails
 / falls back to the queue, an upload completes / fails, the user aborts or re-queues, the slot
-setting or a user's status / friend / privilege flags change.
+setting or the friend list changes, the server reports a user's status / privileges.
+
+What the scheduler knows about a user is NOT a table of its own: `_get_queued_transfers` and
+`_prioritize_uploads` ask `UserManager.get_user_object()` (user/manager.py:173-194), and
+`UserManager._users` is a `WeakValueDictionary`: a `User` object (with the status the server
+reported) lives only as long as the tracking manager's `TrackedUser` refers to it.  The model
+therefore carries the weak dictionary (`store`) and `manage_user_tracking` (manager.py:504-522,
+first half of every management cycle, `Sched.track`): a user is tracked from the first cycle that
+sees an unfinished transfer of theirs until the first cycle that sees only finalized ones; a report
+for a user who is not tracked lands in a throw-away object.  `ref` is the specification the
+bookkeeping is proved against (`C05_seen_is_last_reported`): the status the server last reported for
+a user since the cycle that first saw an unfinished transfer of theirs.
 
 Merged step: `manage_transfers` creates an `initialize-upload` task for every selected upload while it
 is still `QUEUED`; the task's first step (`await transfer.state.initialize()`, manager.py:892, an
@@ -36,6 +47,12 @@ structure UserInfo where
   privileged : Bool := false
 deriving DecidableEq, Repr, Inhabited
 
+/-- what a `User` object holds, as far as the scheduler reads it (user/model.py) -/
+structure Known where
+  status : UStatus := .unknown
+  privileged : Bool := false
+deriving DecidableEq, Repr, Inhabited
+
 inductive Dir | upload | download
 deriving DecidableEq, Repr
 
@@ -54,14 +71,53 @@ deriving DecidableEq, Repr
 def Xfer.processing (x : Xfer) : Bool :=
   x.st == .initializing || x.st == .uploading || x.st == .downloading
 
+/-- `Transfer.is_finalized` (model.py:295-301) -/
+def Xfer.finalized (x : Xfer) : Bool :=
+  x.st == .complete || x.st == .aborted || x.st == .failed
+
 /-- member of `get_uploading()` (manager.py:405-412) -/
 def Xfer.procUpload (x : Xfer) : Bool := x.dir == .upload && x.processing
 
 structure Sched where
   xs : List Xfer := []
-  users : Nat → UserInfo := fun _ => {}
+  friends : Nat → Bool := fun _ => false         -- settings.users.friends
+  privSet : Nat → Bool := fun _ => false         -- UserManager._privileged_users (last PrivilegedUsers list)
+  store : Nat → Option Known := fun _ => none    -- UserManager._users: entries kept alive by a TrackedUser
+  ref : Nat → Option Known := fun _ => none      -- specification (ghost): last report since tracking was due
   slots : Nat := 2                 -- settings.transfers.limits.upload_slots
   cyclePending : Bool := false     -- the size-1 management queue holds a request (manager.py:113, 535-540)
+
+/-- the object `get_user_object` creates for a user it does not hold (user/manager.py:183-192) -/
+def Sched.fresh (s : Sched) (u : Nat) : Known := { status := .unknown, privileged := s.privSet u }
+
+/-- what the scheduler reads for user `u`: `get_user_object(u)` (the stored object, else a fresh one) and
+`u in settings.users.friends` (manager.py:637, 675-691) -/
+def Sched.users (s : Sched) (u : Nat) : UserInfo :=
+  let k := (s.store u).getD (s.fresh u)
+  { status := k.status, friend := s.friends u, privileged := k.privileged }
+
+/-- `u` has a transfer that is not finalized: member of `unfinished_users` (manager.py:510-513) -/
+def Sched.unfinishedUser (s : Sched) (u : Nat) : Bool := s.xs.any (fun x => x.user == u && !x.finalized)
+
+/-- member of `finished_users` (manager.py:514-517) -/
+def Sched.finishedUser (s : Sched) (u : Nat) : Bool := s.xs.any (fun x => x.user == u && x.finalized)
+
+/-- `manage_user_tracking` (manager.py:504-522) together with what `UserManager.track_user` /
+`untrack_user` (user/manager.py:208-230, 536-553, 563-588) do to the weak dictionary: every user with an
+unfinished transfer is tracked (the existing object is kept, else a fresh one is created and held by the
+new `TrackedUser`); a user with finalized transfers only is untracked (the `TrackedUser` goes, and the
+object with it); a user without transfers is not touched.  The `ref` line is the specification: the
+knowledge about a user starts with the cycle that first sees an unfinished transfer and ends with the
+cycle that sees none. -/
+def Sched.track (s : Sched) : Sched :=
+  { s with
+    store := fun u =>
+      if s.unfinishedUser u then (match s.store u with | some k => some k | none => some (s.fresh u))
+      else if s.finishedUser u then none
+      else s.store u
+    ref := fun u =>
+      if s.unfinishedUser u then (match s.ref u with | some k => some k | none => some (s.fresh u))
+      else none }
 
 /-- `len(get_uploading())` -/
 def Sched.procUploads (s : Sched) : Nat := s.xs.countP Xfer.procUpload
@@ -131,13 +187,22 @@ def Sched.eligible (s : Sched) : List Xfer := s.prioritize s.candidates
 /-- `uploads[:free_upload_slots]` (manager.py:560) -/
 def Sched.select (s : Sched) : List Xfer := s.eligible.take s.freeSlots
 
-/-- one management cycle: the selected uploads are initialised (merged step, see header); their
+/-- `manage_transfers` (upload part): the selected uploads are initialised (merged step, see header); their
 state changes request the next cycle. -/
-def Sched.cycle (s : Sched) : Sched :=
+def Sched.start (s : Sched) : Sched :=
   let sel := s.select
   { s with
     xs := s.xs.map (fun x => if x ∈ sel then { x with st := .initializing } else x)
     cyclePending := !sel.isEmpty }
+
+/-- one management cycle (`_management_job`, manager.py:524-540): `manage_user_tracking`, then
+`manage_transfers`. -/
+def Sched.cycle (s : Sched) : Sched := s.track.start
+
+/-- update of the entry of user `u`, if there is one (a report for a user nobody holds goes to a throw-away
+object) -/
+def updKnown (f : Nat → Option Known) (u : Nat) (g : Known → Known) : Nat → Option Known :=
+  fun v => if v = u then (f v).map g else f v
 
 inductive Op
   | addUpload (u : Nat)        -- peer queues a new file: `_on_peer_transfer_queue` → `_add_upload` → `state.queue()`
@@ -151,7 +216,10 @@ inductive Op
   | apiQueue (k : Nat)         -- `TransferManager.queue` from a documented state (manager.py:273-303)
   | abort (k : Nat)            -- `TransferManager.abort`
   | setSlots (n : Nat)         -- settings.transfers.limits.upload_slots = n
-  | setUser (u : Nat) (i : UserInfo)   -- status / privilege update (+ friend list), `_on_get_user_status`
+  | friend (u : Nat) (b : Bool) -- settings.users.friends gains / loses `u` (a plain attribute: no cycle is requested)
+  | report (u : Nat) (st : UStatus) (priv : Bool)   -- server: GetUserStatus.Response (user/manager.py:383-398, manager.py:1197-1202)
+  | reply (u : Nat) (st : Option UStatus)           -- server: AddUser.Response, `none` = user does not exist (user/manager.py:374-381, manager.py:1193-1195)
+  | privList (l : List Nat)    -- server: PrivilegedUsers.Response (user/manager.py:352-365)
 deriving Repr
 
 def Sched.get? (s : Sched) (k : Nat) : Option Xfer := s.xs.find? (·.id = k)
@@ -184,7 +252,7 @@ def Sched.setSt (s : Sched) (k : Nat) (st : St) : Sched :=
 def Sched.accepts (s : Sched) (op : Op) : Bool :=
   match op with
   | .cycle => s.cyclePending
-  | .addUpload _ | .addDownload _ | .setSlots _ | .setUser _ _ => true
+  | .addUpload _ | .addDownload _ | .setSlots _ | .friend _ _ | .report _ _ _ | .reply _ _ | .privList _ => true
   | op =>
     match op.xfer? with
     | some k => match s.get? k with
@@ -200,7 +268,20 @@ def step (s : Sched) (op : Op) : Sched :=
     { s with xs := s.xs ++ [{ id := s.xs.length, user := u, dir := .download, st := .queued }], cyclePending := true }
   | .cycle => if s.cyclePending then s.cycle else s
   | .setSlots n => { s with slots := n }
-  | .setUser u i => { s with users := fun v => if v = u then i else s.users v, cyclePending := true }
+  | .friend u b => { s with friends := fun v => if v = u then b else s.friends v }
+  | .report u st p =>
+    { s with store := updKnown s.store u (fun _ => { status := st, privileged := p })
+             ref := updKnown s.ref u (fun _ => { status := st, privileged := p })
+             cyclePending := true }
+  | .reply u (some st) =>
+    { s with store := updKnown s.store u (fun k => { k with status := st })
+             ref := updKnown s.ref u (fun k => { k with status := st })
+             cyclePending := true }
+  | .reply _ none => { s with cyclePending := true }
+  | .privList l =>
+    { s with privSet := fun v => l.contains v
+             store := fun v => (s.store v).map (fun k => { k with privileged := l.contains v })
+             ref := fun v => (s.ref v).map (fun k => { k with privileged := l.contains v }) }
   | op =>
     match op.xfer? with
     | some k => match s.get? k with
